@@ -577,7 +577,27 @@ func (g *cgen) top() (c *search.Constraint, shape string) {
 				target = pick(g, g.refs, "visOtherRef")
 			}
 			var sub *search.Constraint
-			switch g.n(0, 3, "visSub") {
+			switch g.n(0, 5, "visSub") {
+			case 4, 5:
+				// a sub-query that itself looks at a (typically multi-valued) attribute of the referenced
+				// permanode: its evaluation runs in the middle of the outer loop over the set's values
+				// prefer a tag that one of the permanodes referenced by this very attribute really carries
+				cands := append([]string(nil), vw.Tags...)
+				var held []string
+				for _, v := range cl.Perm.AttrsAt(time.Time{})[cl.Attr] {
+					for _, p := range g.w.Perms {
+						if p.RefS == v {
+							held = append(held, p.AttrsAt(time.Time{})["tag"]...)
+						}
+					}
+				}
+				if len(held) > 0 && g.p(75, "visTagHeld") {
+					cands = held
+				}
+				sub = &search.Constraint{Permanode: &search.PermanodeConstraint{Attr: "tag", Value: pick(g, cands, "visTag")}}
+				if g.p(30, "visTagNum") {
+					sub = &search.Constraint{Permanode: &search.PermanodeConstraint{Attr: "tag", NumValue: &search.IntConstraint{Min: int64(g.n(1, 2, "visTagMin"))}}}
+				}
 			case 0:
 				sub = &search.Constraint{BlobRefPrefix: target}
 			case 1:
